@@ -581,10 +581,10 @@ func runC06(r *core.Run) {
 			return core.Outcome{Class: fmt.Sprint("end1%4096=", min(c.End1%4096, 2), " items=", min(len(got), 2)), Nontrivial: true, Evals: 2}
 		})
 
-	core.Clause(r, "file-grid", core.Opts{Rule: "every format (SAM: File and FileHeader) x {plain, .gz written with compress/gzip} x content {empty file, one record, many records, a file whose decode ends in an error item, the 9 KiB file, the long-line file, a file with one line of 70 000 bytes, one with a line of 2 MiB, a ~300 KiB file} plus a multi-member .gz: File(path) yields what Reader yields on the bytes; a missing path yields exactly one item, an error; non-trivial = all"},
+	core.Clause(r, "file-grid", core.Opts{Rule: "every format (SAM: File and FileHeader) x {plain, .gz written with compress/gzip} x content {empty file, one record, many records, a file whose decode ends in an error item, the 9 KiB file, the long-line file, a file with one line of 70 000 bytes, one with a line of 2 MiB, a ~300 KiB file} plus a multi-member .gz: File(path) yields what Reader yields on the bytes; a missing path yields exactly one item, an error - also when its compressed or uncompressed twin, a backup, another compression or an upper-case twin exists next to it; non-trivial = all"},
 		func(emit func(c06File) bool) {
 			for _, f := range formats {
-				for _, what := range []string{"empty", "one", "many", "error", "error-middle", "large", "longline", "line-70KiB", "line-2MiB", "huge", "gzip-magic", "zstd-magic", "gzip-bytes", "missing"} {
+				for _, what := range []string{"empty", "one", "many", "error", "error-middle", "large", "longline", "line-70KiB", "line-2MiB", "huge", "gzip-magic", "zstd-magic", "gzip-bytes", "missing", "missing-next-to-compressed-twin", "missing-next-to-plain-twin", "missing-next-to-backup", "missing-next-to-other-compression", "missing-next-to-upper-case-twin"} {
 					for _, gz := range []bool{false, true} {
 						emit(c06File{f.Name, what, gz})
 					}
@@ -599,6 +599,47 @@ func runC06(r *core.Run) {
 				name += ".gz"
 			}
 			path := filepath.Join(scratch, name)
+			if strings.HasPrefix(c.What, "missing-next-to-") {
+				// the path asked for does not exist, but a close relative does: its compressed or
+				// uncompressed twin, a backup, another compression. File must not read something else.
+				base := filepath.Join(scratch, fmt.Sprintf("sib-%s-%s-%v.%s", c.Format, c.What, c.Gz, map[string]string{"fasta": "fa", "fastq": "fq", "sam": "sam", "samh": "sam", "bed": "bed", "newick": "nwk"}[c.Format]))
+				content := corpus(c.Format, "medium")[0]
+				var zb bytes.Buffer
+				zw := gzip.NewWriter(&zb)
+				zw.Write(content)
+				zw.Close()
+				ask := base
+				var sibling string
+				var sibData []byte
+				switch strings.TrimPrefix(c.What, "missing-next-to-") {
+				case "compressed-twin":
+					sibling, sibData = base+".gz", zb.Bytes()
+				case "plain-twin":
+					ask, sibling, sibData = base+".gz", base, content
+				case "backup":
+					sibling, sibData = base+"~", content
+				case "other-compression":
+					sibling, sibData = base+".zst", content
+				case "upper-case-twin":
+					sibling, sibData = strings.ToUpper(base[len(scratch):]), content
+					sibling = filepath.Join(scratch, sibling)
+				}
+				if err := os.WriteFile(sibling, sibData, 0o644); err != nil {
+					return core.Outcome{Class: "HARNESS cannot write scratch file", Skip: true}
+				}
+				defer os.Remove(sibling)
+				if _, err := os.Stat(ask); err == nil {
+					return core.Outcome{Class: "HARNESS the path exists (case-insensitive file system?)", Skip: true}
+				}
+				items, p, _ := f.File(ask, 1000)
+				if p != "" {
+					return core.Failf("%s.File on a missing path panicked: %s", c.Format, p)
+				}
+				if len(items) != 1 || !items[0].IsErr() {
+					return core.Failf("%s.File(%q): the path does not exist (only %q does) but File yields %s, want exactly one error item", c.Format, filepath.Base(ask), filepath.Base(sibling), trunc(renderObs(items), 300))
+				}
+				return core.OK(c.What, true)
+			}
 			if c.What == "missing" {
 				path = filepath.Join(scratch, "no-such-dir", name)
 				items, p, _ := f.File(path, 1000)
